@@ -1,3 +1,68 @@
-import Mkdb.Spec.Query
+import Mkdb.Proofs.Join
+/-!
+# C06 — JOIN results equal the relational definition
+
+Property theorems only (proofs in `Mkdb/Proofs/Join.lean`).  Quantifier: every table
+content (empty sides, duplicate keys), every chain of INNER / LEFT / RIGHT joins, every ON
+condition that evaluates to a boolean on every pair.
+-/
 namespace Mkdb.Exec
+open Mkdb.Sql Mkdb.Exec.JoinP
+
+/-- **C06.join**: for every left-deep chain of joins, whenever the relational definition
+`Spec.fromRows` is defined (all ON evaluations are booleans) the nested-loop join returns
+the same header and, as a multiset, exactly the same rows: the pairs satisfying the
+condition plus — for LEFT (RIGHT) joins — each unmatched left (right) row once, padded
+with NULLs. -/
+theorem C06_join (fetch : Bytes → Option Table) (tr : TableRef) (rowsS : List Row) (fieldsS : List Field)
+    (h : Spec.fromRows fetch tr = some (rowsS, fieldsS)) :
+    ∃ rowsM fieldsM, nestedLoopJoin fetch tr = .ok (rowsM, fieldsM) ∧ fieldsM = fieldsS ∧ rowsM.Perm rowsS :=
+  nestedLoopJoin_perm_fromRows fetch tr rowsS fieldsS h
+
+/-- **C06.inner**: one INNER join is the list comprehension, in loop order. -/
+theorem C06_inner (on : Cond) (fields : List Field) (L R : List Row) (truth : Row → Bool)
+    (h : ∀ l ∈ L, ∀ r ∈ R, evaluate on fields (l ++ r) = .ok (.bool (truth (l ++ r)))) :
+    joinOuter on fields L R (fun l r => l ++ r) none = .ok (L.flatMap fun l => (R.map fun r => l ++ r).filter truth) :=
+  inner_join_eq on fields L R truth h
+
+/-- **C06.left**: LEFT JOIN — every matching pair, and each left row without a match exactly
+once, padded with `n` NULLs. -/
+theorem C06_left (on : Cond) (fields : List Field) (L R : List Row) (truth : Row → Bool) (n : Nat)
+    (h : ∀ l ∈ L, ∀ r ∈ R, evaluate on fields (l ++ r) = .ok (.bool (truth (l ++ r)))) :
+    joinOuter on fields L R (fun l r => l ++ r) (some fun l => l ++ List.replicate n .null) =
+      .ok (L.flatMap fun l => let ms := (R.map fun r => l ++ r).filter truth
+                              if ms.isEmpty then [l ++ List.replicate n .null] else ms) :=
+  left_join_eq on fields L R truth n h
+
+/-- **C06.right**: RIGHT JOIN, symmetrically. -/
+theorem C06_right (on : Cond) (fields : List Field) (L R : List Row) (truth : Row → Bool) (n : Nat)
+    (h : ∀ l ∈ L, ∀ r ∈ R, evaluate on fields (l ++ r) = .ok (.bool (truth (l ++ r)))) :
+    joinOuter on fields R L (fun r l => l ++ r) (some fun r => List.replicate n .null ++ r) =
+      .ok (R.flatMap fun r => let ms := (L.map fun l => l ++ r).filter truth
+                              if ms.isEmpty then [List.replicate n .null ++ r] else ms) :=
+  right_join_eq on fields L R truth n h
+
+/-- **C06.resolve (ambiguity)**: an unqualified name carried by two different columns of the
+joined header is rejected as ambiguous, never resolved silently. -/
+theorem C06_ambiguous (fields : List Field) (n : Bytes) (i j : Nat) (hij : i ≠ j)
+    (hi : fields[i]?.map (·.column) = some n) (hj : fields[j]?.map (·.column) = some n) :
+    lookupFieldIdx fields n = .err .fieldAmbiguous :=
+  lookupFieldIdx_ambiguous fields n i j hij hi hj
+
+/-- **C06.resolve (qualified)**: a qualified reference resolves to the first column carrying
+exactly that table id and name. -/
+theorem C06_qualified (fields : List Field) (tid n : Bytes) (i : Nat)
+    (h : lookupColIdxByID fields tid n = .ok i) :
+    fields[i]? = some ⟨tid, n⟩ ∧ ∀ k, k < i → fields[k]? ≠ some ⟨tid, n⟩ :=
+  lookupColIdxByID_first fields tid n i h
+
+/-- **C06.resolve (alias)**: a table's columns are addressable through its alias when it has
+one and through its name otherwise (so one table joined to itself under two aliases gives
+two disjoint sets of qualified names). -/
+theorem C06_alias (fetch : Bytes → Option Table) (t : TableName) (rows : List Row) (fields : List Field)
+    (h : fetchTable fetch t = .ok (rows, fields)) :
+    ∃ tbl, fetch t.name = some tbl ∧ rows = tbl.rows ∧ fields = tbl.cols.map (fun c => ⟨t.alias.getD t.name, c⟩) ∧
+      (∀ a, t.alias = some a → ∀ f ∈ fields, f.tableId = a) ∧ (t.alias = none → ∀ f ∈ fields, f.tableId = t.name) :=
+  fetchTable_alias fetch t rows fields h
+
 end Mkdb.Exec
